@@ -122,13 +122,15 @@ CLAIMED = {
             'all minimisers, num_grad, permuted) is compared with that estimator run on its own design matrix, weights and data: values, every '
             'per-configuration fluctuation by configuration number, every covariance-input gradient, chi-square, dof, p-value, Hotelling t2 p-value.',
             'Lean kernel; standard axioms; scipy least_squares / minimize / iminuit (contract: stationary point, measured), autograd / numdifftools Hessians, scipy.stats chi2 / f by contract; the design matrix, the weights (from pyerrors\' own errors / covariance) and the prior rows are assembled by the harness from the documented model, not by a Lean model of fits.py; the list-matrix model is not connected to the Mathlib Matrix theorems by proof.', '5 C07'),
-    'C08': ('Lean 4 theorems (implicit-function rule algebraically H X + M = 0 => X = -H^-1 M, one-parameter analytic chain rule, block slices of the ODR Hessian, TLS -> ordinary LS limit) + independent chi-square / finite-difference implicit-function oracle evaluated on the implementation',
+    'C08': ('Lean 4 theorems (implicit-function rule algebraically H X + M = 0 => X = -H^-1 M, one-parameter analytic chain rule, block slices of the ODR Hessian, TLS -> ordinary LS limit; executable exact-rational solve: whatever it returns satisfies H X + M = 0) + the rule evaluated on the implementation: Hessian and mixed derivative of an independently coded chi-square at the returned point, the Lean model solves, the result is applied to the data fluctuations by configuration number; shift-and-refit and TLS limit as consequences',
             'Proof: a sensitivity X satisfying the differentiated stationarity condition H X + M = 0 with invertible H is -H^-1 M; in one parameter the '
             'analytic implicit-function derivative follows from the chain rule; the code\'s block slicing of the total-least-squares mixed Hessian selects the '
             'd(p, xhat)/dy and /dx blocks for every n_parms and m; with vanishing abscissa errors the total-least-squares stationarity equations reduce to the '
-            'ordinary normal equations. On the implementation: stationarity of the returned point, propagated fluctuations against -H^-1 M from an '
-            'independently coded chi-square, and TLS with negligible x errors against the ordinary fit.',
-            'Lean kernel; standard axioms; minimisers / ODR / autograd Hessians by contract (gradient norm measured); the multivariate analytic implicit-function theorem is used through its algebraic consequence; finite-difference oracle tolerance 2e-4 of the parameter error.', '5 C08'),
+            'ordinary normal equations; the executable solver (exact rational arithmetic) returns only X with H X + M = 0 (c08_iftSens_sound). On the '
+            'implementation: stationarity of the returned point, propagated fluctuations of every parameter against -H^-1 M built from an independently coded '
+            'chi-square (least squares incl. priors / correlated, and total least squares w.r.t. x and y data incl. a 2-d abscissa) with the linear solve done '
+            'by the Lean model, shift-and-refit sensitivities, and TLS with negligible x errors against the ordinary fit.',
+            'Lean kernel; standard axioms; minimisers / ODR by contract (gradient norm measured); derivatives of the independent chi-square by autograd (a different code path from pyerrors\' own use: plain numpy chi-square, not fits.py); the multivariate analytic implicit-function theorem is used through its algebraic consequence.', '5 C08'),
     'C09': ('Lean 4 theorems (implicit differentiation -f_d/f_x along the root curve, inverse-function rule, fundamental theorem of calculus at both limits with signs, derivative under the integral for the polynomial / exponential families, gradient order pobs ++ bobs) + derived_observable model correspondence + closed-form inverse / antiderivative oracle',
             'Proof: along a root curve f(x(d), d) = 0 with f_x != 0 the derivative is -f_d/f_x (hence 1/g\'(x) for f = g(x) - d); the integral has derivative '
             '+f(b) in the upper and -f(a) in the lower limit and, for the families used, the integral of df/dp in a parameter; the gradient list is ordered '
